@@ -413,11 +413,23 @@ Proof.
   destruct (_ =? 0).
   - eapply Step_trans; [apply with_devx_step; eauto|]. apply IHk. eapply Step_G. apply with_devx_step; eauto.
   - match goal with |- Step _ _ _ (set_heartbeat_all k ?r1 _ _ _) => assert (S1 : Step nd mx r r1) end.
-    { destruct (_ || _); auto with safe.
+    { destruct (_ || _ || _); auto with safe.
       pose proof (millis64_step nd mx r H) as S1. destruct (millis64 r) as [rc t]; cbn [fst] in S1.
-      chain. eapply Step_trans; [apply with_devx_step; eauto with safe|].
-      apply with_devinfo_changed_step. eapply Step_G. apply with_devx_step; eauto with safe. }
+      match goal with |- context [with_devx rc i ?x] => pose proof (with_devx_step nd mx rc i x (Step_G _ _ _ _ S1)) as S2 end.
+      destruct (_ || _); [|chain].
+      chain. apply with_devinfo_changed_step. eauto with safe. }
     chain. apply IHk; eauto with safe.
+Qed.
+(* the recomputation of the enabled heartbeat schedulers in Open(): per-device state and the clock extension only *)
+Lemma resync_heartbeats_ok nd mx : forall k r i, G nd mx r -> Step nd mx r (resync_heartbeats k r i).
+Proof.
+  induction k; intros r i H; cbn [resync_heartbeats]; auto with safe.
+  match goal with |- Step _ _ _ (resync_heartbeats k ?r1 _) => assert (S1 : Step nd mx r r1) end.
+  { destruct (_ =? ss_disabled); auto with safe.
+    destruct (_ =? 0); [apply with_devx_step; auto|].
+    pose proof (millis64_step nd mx r H) as S1. destruct (millis64 r) as [rc t]; cbn [fst] in S1.
+    chain. apply with_devx_step; eauto with safe. }
+  chain. apply IHk; eauto with safe.
 Qed.
 
 (* ---------- Open ---------- *)
@@ -456,8 +468,10 @@ Proof.
       pose proof (millis64_step nd mx r2 (Step_G _ _ _ _ S2)) as S3. destruct (millis64 r2) as [r2c ts]; cbn [fst snd] in *.
       pose proof (with_sync_step nd mx r2c ts (Step_G _ _ _ _ S3)) as S4.
       pose proof (set_heartbeat_all_ok nd mx c_DefaultHeartbeatInterval 10000 (length (n_devs (rn (with_sync r2c ts)))) _ 0 (Step_G _ _ _ _ S4)) as S5.
+      set (r4 := set_heartbeat_all (length (n_devs (rn (with_sync r2c ts)))) (with_sync r2c ts) 0 c_DefaultHeartbeatInterval 10000) in *.
+      pose proof (resync_heartbeats_ok nd mx (length (n_devs (rn r4))) r4 0 (Step_G _ _ _ _ S5)) as S6.
       cbn [fst snd].
-      assert (S : Step nd mx r1 (set_heartbeat_all (length (n_devs (rn (with_sync r2c ts)))) (with_sync r2c ts) 0 c_DefaultHeartbeatInterval 10000)).
+      assert (S : Step nd mx r1 (resync_heartbeats (length (n_devs (rn r4))) r4 0)).
       { chain. }
       destruct S as (HG & Hs & Hq). split; auto. split; [rewrite Hs; auto|]. split; [left; rewrite Hq; auto|].
       apply evs_app; auto. apply evs_note.
